@@ -2,7 +2,7 @@
    The Impl model makes every Rust panic explicit (checked arithmetic, slice indexing, expect) and
    runs its loops on fuel; the theorems say the outcome is never Panic and never OutOfFuel. *)
 From BS Require Import Impl.Visit Impl.Access Ref.MetaDefs Proofs.ImplRefLeaf Proofs.ImplRefTx Proofs.Transfer Proofs.Entries Proofs.Numbers Proofs.Len
-  Proofs.SpecLemmas Proofs.RefSpec Proofs.SpecTransfer Proofs.TxSpec Proofs.ObjSpec Proofs.IterSpec.
+  Proofs.SpecLemmas Proofs.RefSpec Proofs.SpecTransfer Proofs.TxSpec Proofs.ObjSpec Proofs.IterSpec Proofs.Examples.
 Open Scope N_scope.
 
 (* every bsl entry point, every input, every visitor: a value or an error — never a panic, and the
@@ -88,3 +88,8 @@ Proof.
   destruct (iter_of_parsed_outputs p l Hwf H63) as [it [res [A [_ [_ [B _]]]]]].
   exists it, res. rewrite Hp. unfold mk_txouts. cbn [tos_slice bytes sl]. split; [exact A|exact B].
 Qed.
+
+(* non-vacuity: the quantified domain contains the example block (a header and three transactions) at a non-zero offset *)
+Example C01_example : covered E_block /\ e_D E_block (ex_block_bytes ++ ex_trailing) /\
+  exists pr h', visit_block never (sl 3 (ex_block_bytes ++ ex_trailing)) [] = (Ok pr, h').
+Proof. split; [constructor|split; [exact ex_block_InLen|]]. destruct ex_block_visit as [pr [h' [H _]]]. exists pr, h'. exact H. Qed.
